@@ -634,6 +634,20 @@ func Execute(spec *Spec, opt Options) *Result {
 	s := engine.New(strat, spec.Switches, maxEvents)
 	s.Now, s.Advance = opt.Now, opt.Advance
 	s.KeepEvents = DebugEvents
+	if spec.Kind == "clock" && opt.Now != nil {
+		// clock drift at preemptions: while a task is descheduled the clock
+		// may move on (half of the runs; a quarter of the preemptions)
+		crng := engine.NewRNG(spec.Seed, "clock")
+		if crng.Chance(1, 2) {
+			steps := []int64{50e3, 300e3, 1e6, 3e6, 40e6}
+			s.Drift = func() int64 {
+				if crng.Chance(1, 4) {
+					return steps[crng.Intn(len(steps))]
+				}
+				return 0
+			}
+		}
+	}
 	r.sched = s
 	for ti := range spec.Tasks {
 		ti := ti
@@ -681,6 +695,9 @@ func Execute(spec *Spec, opt Options) *Result {
 	res.ColdStart = spec.ColdStart
 	if spec.ColdStart {
 		res.Probes["cold_start_runs"]++
+	}
+	if s.Drifts > 0 {
+		res.Faults["clock-drift-at-preemption"] += s.Drifts
 	}
 	res.Deadlock, res.StepBudget = s.Deadlock, s.StepBudget
 	if s.Deadlock || s.StepBudget {
